@@ -554,10 +554,23 @@ func TestVerifC41TreeRoundTrip(t *testing.T) {
 		sort.Strings(classes)
 		classes = append(classes, fmt.Sprintf("nodes=%d", min(len(nodes), 3)))
 
+		// ---- pristine deep copies taken BEFORE encoding: "unchanged" is judged against them, so
+		// an encoder that rearranges its input in place (and then faithfully stores the rearranged
+		// form) cannot pass by having changed both sides
+		pristine := make([]*Node, len(nodes))
+		for i, n := range nodes {
+			pristine[i] = cloneNodeC41(n, shuf)
+		}
+
 		// ---- encode
 		buf, err := encodeTreeC41(nodes)
 		if err != nil {
 			t.Fatalf("encoding %d strictly ordered nodes failed: %v", len(nodes), err)
+		}
+		for i := range nodes {
+			if d := diffNodeC41(pristine[i], nodes[i]); d != "" {
+				t.Fatalf("encoding modified its input: node %d (%q): %s", i, pristine[i].Name, d)
+			}
 		}
 		if !json.Valid(buf) || !bytes.HasSuffix(buf, []byte("\n")) {
 			t.Fatalf("tree blob is not valid JSON terminated by a newline: %q", buf)
@@ -594,6 +607,9 @@ func TestVerifC41TreeRoundTrip(t *testing.T) {
 			t.Fatalf("%d nodes decoded, %d encoded", len(got), len(nodes))
 		}
 		for i := range nodes {
+			if d := diffNodeC41(pristine[i], got[i]); d != "" {
+				t.Fatalf("node %d (%q) not returned unchanged: %s\nblob: %s", i, nodes[i].Name, d, buf)
+			}
 			if d := diffNodeC41(nodes[i], got[i]); d != "" {
 				t.Fatalf("node %d (%q) not returned unchanged: %s\nblob: %s", i, nodes[i].Name, d, buf)
 			}
